@@ -149,17 +149,6 @@ Print Assumptions c07_tag_inflected_twice_refuted_as_found.
 
 (* ---- non-vacuity: the documentation's own examples, evaluated through the mechanism model with the Inflector
    model (metrique/README.md "Combining renaming strategies": "his-ApiLatency", "his-exact_name") ---- *)
-Definition readme_combined : edef :=
-  EStruct Kebab None
-    (FCons (bs "foo_bar") (KField None None false (LNum (OU 1) 0))
-    (FCons (bs "overridden_field") (KField (Some (bs "custom_name")) None false (LStr (bs "x")))
-    (FCons (bs "nested") (KFlatten (Some (PInfl (bs "his-"))) Plain
-       (EStruct Pascal (Some (PInfl (bs "api_")))
-          (FCons (bs "latency") (KField None (Some 4) false (LNum (OU 5) 0))
-          (FCons (bs "response_time") (KField (Some (bs "exact_name")) None false (LOpt false (LNum (OU 0) 0)))
-          (FCons (bs "operation") (KField None None true (LEnum Snake [(bs "CountDucks", None)] 0)) FNil)))))
-     FNil))).
-
 Example c07_example_readme :
   root_write to_pascal_case to_snake_case to_kebab_case true readme_combined
   = [IValue (bs "foo-bar") true (VMetric (OU 1) 0 [] false);
@@ -193,17 +182,6 @@ Proof. vm_compute. repeat split. Qed.
 
 (* the examples of the macro documentation ("Metric Names" in metrique-macro/src/lib.rs, "Add a prefix to all
    metrics in a subfield" in metrique/README.md, metrique/tests/enum_tag.rs), names only *)
-Definition names_of (its : list item) : list bytes :=
-  flat_map (fun it => match it with IValue n _ _ => [n] | ITimestamp _ => [] end) its.
-Definition sub_ducks : edef :=
-  EStruct Preserve None
-    (FCons (bs "request_latency") (KField None None false (LNum (OF 0) 4))
-    (FCons (bs "number_of_ducks") (KField (Some (bs "NDucks")) None false (LNum (OU 0) 0)) FNil)).
-Definition run_names (d : edef) : list bytes := names_of (root_write to_pascal_case to_snake_case to_kebab_case true d).
-Definition spec_names (d : edef) : list bytes :=
-  flat_map (fun it => match it with SValue n _ => [n] | STimestamp _ => [] end)
-           (spec_items to_pascal_case to_snake_case to_kebab_case d).
-
 Example c07_example_macro_docs :
   (* 1. flatten exact_prefix "API:" / prefix "alt" under kebab-case *)
   (let d := EStruct Kebab None
